@@ -116,6 +116,22 @@ impl<R: FsModuleResolver> Visit for ImportsVisitor<'_, R> {
         );
     }
 
+    fn visit_export_default_decl(&mut self, n: &swc_ecma_ast::ExportDefaultDecl) {
+        // `export default interface I { .. }` (classes and functions have no type beff can use)
+        if let swc_ecma_ast::DefaultDecl::TsInterfaceDecl(decl) = &n.decl {
+            self.symbol_exports.set_default_export(
+                SymbolExportDefault::Renamed {
+                    export: Rc::new(SymbolExport::TsInterfaceDecl {
+                        decl: Rc::new(*decl.clone()),
+                        original_file: self.current_file.clone(),
+                        span: decl.span,
+                    }),
+                }
+                .into(),
+            );
+        }
+    }
+
     fn visit_export_decl(&mut self, n: &ExportDecl) {
         match &n.decl {
             Decl::TsInterface(n) => {
